@@ -246,16 +246,10 @@ func (v *View) applyOwn(req any, got []*RecvMsg, rid uint32) {
 		}
 	case *hagallpb.EntityDeleteRequest:
 		v.dropEntity(q.EntityId)
-	case *hagallpb.EntityUpdatePose:
-		if e, ok := v.Entities[q.EntityId]; ok {
-			e.Pose = poseOf(q.Pose)
-		}
 	case *hagallpb.EntityComponentAddRequest:
 		v.Components[CKey{q.EntityComponentTypeId, q.EntityId}] = string(q.Data)
 	case *hagallpb.EntityComponentDeleteRequest:
 		delete(v.Components, CKey{q.EntityComponentTypeId, q.EntityId})
-	case *hagallpb.EntityComponentUpdate:
-		v.Components[CKey{q.EntityComponentTypeId, q.EntityId}] = string(q.Data)
 	case *vikjapb.EntityActionRequest:
 		a := q.GetEntityAction()
 		if v.Actions[a.GetEntityId()] == nil {
@@ -271,6 +265,22 @@ func (v *View) applyOwn(req any, got []*RecvMsg, rid uint32) {
 			if lr, ok := r.Msg.(*hagallpb.EntityComponentListResponse); ok && r.ReqID == rid {
 				v.RefreshType(q.EntityComponentTypeId, lr.EntityComponents)
 			}
+		}
+	}
+}
+
+// applyOwnUnanswered: requests that get no answer (pose and component updates) are applied to
+// the sender's own view when sent, if to the sender's knowledge they are valid.
+func (v *View) applyOwnUnanswered(req any) {
+	switch q := req.(type) {
+	case *hagallpb.EntityUpdatePose:
+		if e, ok := v.Entities[q.EntityId]; ok && e.Owner == v.PID && q.Pose != nil {
+			e.Pose = poseOf(q.Pose)
+		}
+	case *hagallpb.EntityComponentUpdate:
+		k := CKey{q.EntityComponentTypeId, q.EntityId}
+		if _, ok := v.Components[k]; ok {
+			v.Components[k] = string(q.Data)
 		}
 	}
 }
